@@ -11,12 +11,16 @@
 #include "vx.h"
 #include "vx_open.h"
 #include <xercesc/internal/IGXMLScanner.hpp>
+#include <xercesc/internal/DGXMLScanner.hpp>
 #include <xercesc/internal/XMLReader.hpp>
 #include <xercesc/validators/DTD/DTDGrammar.hpp>
 #include <xercesc/validators/DTD/DTDEntityDecl.hpp>
 #include <xercesc/framework/XMLBuffer.hpp>
 #include <xercesc/util/RuntimeException.hpp>
 #include "vx_close.h"
+#ifndef SCANNER
+#define SCANNER IGXMLScanner      // -DSCANNER=DGXMLScanner: the DTD-only scanner has its own copy of scanEntityRef
+#endif
 #define VX_STUB_XMLEXCEPTION
 #define VX_STUB_XMEMORY
 #include "vx_stubs.hpp"
@@ -29,7 +33,7 @@ int vx_create_ext, vx_create_int, vx_push_n; bool vx_create_disable; void* vx_de
 static bool seen(int code) { for (int i = 0; i < 4; i++) if (i < vx_err_n && vx_err_code[i] == code) return true; return false; }
 extern "C" void harness_entityref(void) {
   VxMMFixed<112> mm;
-  static VxRaw<IGXMLScanner> sr; IGXMLScanner* sc = &sr.obj;
+  static VxRaw<SCANNER> sr; SCANNER* sc = &sr.obj;
   static VxRaw<DTDEntityDecl> dr; DTDEntityDecl* decl = new (&dr.obj) DTDEntityDecl(&mm); vx_decl = decl;
   static long gram[8]; sc->fDTDGrammar = (DTDGrammar*)gram;                 // identity only: getEntityDecl is cut
   XMLBuffer buf(8, &mm); vx_the_buffer = &buf;
@@ -49,7 +53,7 @@ extern "C" void harness_entityref(void) {
   vx_is_charref = nondet_bool(); vx_charref_ok = nondet_bool(); vx_semi = nondet_bool(); vx_validname = nondet_bool(); vx_found = nondet_bool();
   vx_reader_ok = nondet_bool(); vx_push_ok = nondet_bool(); vx_textdecl = nondet_bool();
   XMLCh c1 = 0, c2 = 0; bool escaped = false, threw = false; int res = -1;
-  try { res = sc->IGXMLScanner::scanEntityRef(inAttVal, c1, c2, escaped); } catch (const XMLException&) { threw = true; }
+  try { res = sc->SCANNER::scanEntityRef(inAttVal, c1, c2, escaped); } catch (const XMLException&) { threw = true; }
   bool declared = !vx_is_charref && vx_validname && vx_found;
   bool ext = declared && external, unp = ext && unparsed;
   // ---- what may be opened
